@@ -8,6 +8,8 @@ package main
 import (
 	"context"
 	"os"
+	"runtime"
+	"time"
 
 	"grog/internal/config"
 	"grog/internal/locking"
@@ -27,6 +29,13 @@ func main() {
 		}
 		locking.VerifYield("lockerr", err.Error())
 		os.Exit(3)
+	}
+	// a build allocates for as long as it holds the lock: whatever the lock rests on has to survive garbage
+	// collections (and the finalizers they trigger) without the locker being touched
+	for i := 0; i < 3; i++ {
+		_ = make([]byte, 1<<20)
+		runtime.GC()
+		time.Sleep(2 * time.Millisecond)
 	}
 	locking.VerifYield("held", "") // inside the critical section until the controller answers
 	if err := locker.Unlock(); err != nil {
